@@ -331,7 +331,7 @@ def check_enum(ctx: Ctx, case: dict) -> None:
         # first failing block of this setting in this shard: report single
         # plans (replayable with sub-check 'plan'); later blocks only count
         alone = 0
-        for idx in bad[:2]:
+        for idx in bad[:1]:
             pcase = dict(icase, cls="enum", plan=en.plan(idx), pre=0)
             try:
                 check_plan(ctx, pcase)
